@@ -112,6 +112,11 @@ Proof.
     apply (Permutation_in _ (Permutation_sym P)). apply in_map_iff. exists (k, v). split; [reflexivity|exact Hin].
 Qed.
 
+(* the runner builds its configurations with cfg_new_v (entries may be hand-nested mappings); for entries
+   that are all numbers - the flat configurations the theorems speak about - that is cfg_new *)
+Lemma cfg_new_v_numbers (cfg : list (str * N)) : cfg_new_v (map (fun e => (fst e, VNum (snd e))) cfg) = cfg_new cfg.
+Proof. unfold cfg_new_v, cfg_new, cfg_fuel. rewrite !map_map. reflexivity. Qed.
+
 (* ---- from name/value lists to the property store of the model ---- *)
 Definition store_of (ps : props) : store := map (fun e => (fst e, EYaml (snd e))) ps.
 Definition hasS (name : str) (st : store) : Prop := exists e, In (name, e) st.
